@@ -131,8 +131,10 @@ impl Worker {
                         "EOF" => {
                             let (sig, code) = self.reap();
                             return Obs {
-                                outcome: if sig.is_some() { "abort".into() } else { "exit".into() }, consumed: 0, max_alloc: refused,
-                                detail: format!("child died: signal {sig:?} exit code {code:?}"), signal: sig, millis: t0.elapsed().as_millis(),
+                                outcome: if sig.is_some() || code == Some(86) { "abort".into() } else { "exit".into() }, consumed: 0, max_alloc: refused,
+                                detail: if code == Some(86) { format!("allocation of {refused} bytes requested (refused by the harness; the shipped binary aborts or holds that much)") }
+                                        else { format!("child died: signal {sig:?} exit code {code:?}") },
+                                signal: sig, millis: t0.elapsed().as_millis(),
                             }
                         }
                         _ => {}
